@@ -119,6 +119,44 @@ template <typename T> Sx pure_case(std::string const& cmd, Sx const& a)
         // samples with is the refinement of the LAST result the checkpoint holds now.  Self-checking, C++ only (args: variant calls)
         std::string const variant = a.at(0).Y_(); std::size_t const calls = a.at(1).N_();
         Ctx ctx; g_ctx = &ctx; ctx.seed = a.at(2).N_();
+        if (variant == "mcloop" || variant == "mccallback")
+        {
+            // the multi-channel analogue: channel_weights(), multi_channel_iteration, add(), rollback()
+            auto fm = [](hep::multi_channel_point<T> const& p) { T x = p.coordinates()[0]; return T(3.0) * x * x; };
+            auto map = [](std::size_t ch, std::vector<T> const& us, std::vector<T>& c, std::vector<std::size_t> const&, std::vector<T>& d, hep::multi_channel_map act) {
+                if (act == hep::multi_channel_map::calculate_coordinates) { c[0] = ch == 0 ? us[0] : ch == 1 ? us[0] * us[0] : T(1.0) - (T(1.0) - us[0]) * (T(1.0) - us[0]); return T(1.0); }
+                T const x = c[0];
+                d[0] = T(1.0); d[1] = T(0.5) / sqrt(x > T() ? x : T(1e-30)); d[2] = T(0.5) / sqrt(x < T(1.0) ? T(1.0) - x : T(1e-30));
+                return T(1.0); };
+            auto mi = hep::make_multi_channel_integrand<T>(fm, 1, map, 1, 3);
+            auto mchk = hep::make_multi_channel_chkpt<T, script_engine>(std::vector<T>{T(1.0), T(2.0), T(1.0)}, T(0.01), T(0.25), script_engine(0));
+            std::vector<std::string> badm;
+            if (variant == "mcloop")
+            {
+                script_engine gen(0);
+                mchk.channels(3);
+                std::vector<T> last_used = mchk.channel_weights();
+                for (int it = 0; it != 3; ++it) { auto w = mchk.channel_weights(); last_used = w; auto r = hep::multi_channel_iteration(mi, calls, w, gen); mchk.add(r, gen); }
+                auto next = mchk.channel_weights(); (void) next;
+                mchk.rollback(mchk.results().size() - 1);
+                auto again = (ctx.seed & 1) ? last_used : mchk.channel_weights();
+                auto r = hep::multi_channel_iteration(mi, 2 * calls + 1, again, gen); mchk.add(r, gen);
+            }
+            else
+            {
+                struct Discard { bool done = false; bool operator()(MChk<T>& c) { if (!done && c.results().size() == 2) { done = true; c.rollback(1); } return true; } } cb;
+                mchk = hep::multi_channel(mi, std::vector<std::size_t>{calls, calls + 3, calls, calls + 1}, mchk, cb);
+            }
+            auto const& rs = mchk.results();
+            for (std::size_t k = 0; k + 1 < rs.size(); ++k)
+                if (rs[k + 1].channel_weights() != hep::multi_channel_refine_weights(rs[k].channel_weights(), rs[k].adjustment_data(), mchk.min_weight(), mchk.beta()))
+                    badm.push_back("result " + std::to_string(k + 1) + " was not sampled with the refinement of the weights of result " + std::to_string(k));
+            if (!rs.empty() && mchk.channel_weights() != hep::multi_channel_refine_weights(rs.back().channel_weights(), rs.back().adjustment_data(), mchk.min_weight(), mchk.beta()))
+                badm.push_back("chkpt.channel_weights() is not the refinement of the last result");
+            Sx outm = Sx::list({Sx::sym(badm.empty() ? "ok" : "violation"), Sx::num(rs.size())});
+            for (auto const& b : badm) outm.add(Sx::str(b));
+            return outm;
+        }
         auto f = [](hep::vegas_point<T> const& p) { T x = p.point()[0]; return x * x * x * T(4.0) + p.point()[1]; };
         auto integrand = hep::make_integrand<T>(f, 2);
         auto chk = hep::make_vegas_chkpt<T, script_engine>(5, T(1.5), script_engine(0));
